@@ -174,6 +174,8 @@ struct Run {
     if (property == "C10" && clause == "C08.1" && everFailed) clause = "C10.4";   // no convergence after repair
     if (property == "C05" && (clause == "C08.1" || clause == "C08.3" || clause == "C09.2") && cancelledBuilds > 0) clause = "C05.5";   // a later build is not clean
     bool mine = clause.compare(0, property.size() + 1, property + ".") == 0;
+    if (const char* promote = getenv("VSIM_PROMOTE"))   // development aid: report another property's clause as a violation
+      if (clause == promote) mine = true;
     if (mine) {
       if (verdict) return;
       verdict = true;
@@ -638,6 +640,9 @@ void Run::opBuild(const Json& op) {
     if (c->tool != "shell") {
       predictRun[c->name] = false;
       if (c->tool != "phony") exact = false;
+      // a phony command with an input nobody produces and that does not exist cannot be built
+      for (auto& i : c->inputs)
+        if (!isVirtualNode(i) && !isDirNode(i) && !desc.producer(i) && !stateOf(i).exists) predictFail[c->name] = true;
       continue;
     }
     bool upstreamFailed = false, upstreamRan = false;
@@ -735,6 +740,8 @@ void Run::opBuild(const Json& op) {
   bool anyPredictedFailure = false;
   for (auto& e : predictFail)
     if (e.second) anyPredictedFailure = true;
+  // a target the description does not define is an error of its own (the shrinker can produce that)
+  if (!byNode && !desc.targets.count(target)) anyPredictedFailure = true;
   // a target node nobody produces and that does not exist is an error of its own
   for (auto& n : roots)
     if (!desc.producer(n) && !isVirtualNode(n) && !stateOf(n).exists) anyPredictedFailure = true;
@@ -1413,7 +1420,7 @@ struct Gen {
           if (rng.chance(750)) sources[x[0] == '/' ? x.substr(strlen(kWork) + 1) : x] = freshContent("extra", {});
         }
       }
-      if ((property == "C09" || property == "C10") && rng.chance(90)) c.allowModified = true;
+      if ((property == "C09" || property == "C10") && rng.chance(property == "C09" ? 160 : 90)) c.allowModified = true;
       if (rng.chance(150)) c.outputs.insert(c.outputs.begin() + (rng.chance(600) ? 0 : (long)c.outputs.size()), "<v" + std::to_string(i) + ">");
       if (rng.chance(200)) c.env.push_back({"MODE", "m" + std::to_string(rng.below(5))});
       if (rng.chance(100)) c.env.push_back({"OTHER", "o" + std::to_string(rng.below(5))});
@@ -1671,8 +1678,16 @@ struct Gen {
     for (size_t i = 0; i < desc.cmds.size(); i++)
       if (desc.cmds[i].tool == "shell") shells.push_back(i);
     if (shells.empty()) return "none";
-    Cmd& c = desc.cmds[shells[rng.below(shells.size())]];
+    size_t pick = shells[rng.below(shells.size())];
     unsigned k = (unsigned)rng.below(15);
+    if (property == "C09" && rng.chance(150)) {
+      // C09 names this pair explicitly: a node moving between the input and the output list.  Prefer a command for which
+      // nothing but the signature decides (allow-modified-outputs), with two or more inputs.
+      k = 13;
+      for (size_t i : shells)
+        if (desc.cmds[i].allowModified && desc.cmds[i].inputs.size() >= 2) pick = i;
+    }
+    Cmd& c = desc.cmds[pick];
     if ((c.name == "R0" || c.name == "W0") && (k == 9 || k == 12)) return "none";   // the reader of a link keeps declaring what the link names
     switch (k) {
     case 0: c.salt++; return "arg";
@@ -1731,7 +1746,8 @@ struct Gen {
       return "replace-input";
     }
     case 13: {
-      if (rng.chance(500)) { c.always = !c.always; return "always"; }
+      if (property != "C09" && rng.chance(500)) { c.always = !c.always; return "always"; }
+      if (property == "C09" && rng.chance(200)) { c.always = !c.always; return "always"; }
       // a node moves from the end of the input list to the front of the output list: the command now produces what it used
       // to read (the concatenation of the two lists of names stays the same)
       if (c.inputs.size() < 2 || c.name == "R0" || c.name == "W0") return "none";
@@ -1748,6 +1764,29 @@ struct Gen {
       return "input-to-output";
     }
     default: {
+      if (rng.chance(400)) {
+        // a produced node becomes a plain file: its producer is dropped from the description, what it wrote stays on disk
+        std::vector<size_t> cands;
+        for (size_t i = 0; i < desc.cmds.size(); i++) {
+          const Cmd& pc = desc.cmds[i];
+          if (pc.tool != "shell" || pc.name == "R0" || pc.name == "W0") continue;
+          bool consumed = false, special = false;
+          for (auto& o : pc.outputs) {
+            if (isVirtualNode(o)) special = true;
+            for (auto& other : desc.cmds) {
+              if (std::find(other.inputs.begin(), other.inputs.end(), o) != other.inputs.end()) consumed = true;
+              if (other.tool == "symlink" && other.contents == o) special = true;
+            }
+            for (auto& t : desc.targets)
+              if (std::find(t.second.begin(), t.second.end(), o) != t.second.end()) special = true;
+          }
+          if (consumed && !special) cands.push_back(i);
+        }
+        if (!cands.empty()) {
+          desc.cmds.erase(desc.cmds.begin() + (long)cands[rng.below(cands.size())]);
+          return "remove-producer";
+        }
+      }
       // add a new command consuming an existing product
       Cmd n;
       n.name = "N" + std::to_string(counter++);
